@@ -193,7 +193,12 @@ def _all_concrete(xs):
 
 
 class LoopSpec:
-    def __init__(self, invariant=None, decreases=None, modifies=(), shapes=None, fingerprint=None, unroll=None):
+    def __init__(self, invariant=None, decreases=None, modifies=(), shapes=None, fingerprint=None, unroll=None, counter=False):
+        # counter=True (while loops): the invariant's view carries the ghost iteration counter `i_` = number of
+        # completed iterations (0 at inv-init, an arbitrary k >= 0 at the loop head, k + 1 at inv-preserve), and the
+        # state in which the loop was left -- its locals, `i_` (completed iterations) and `broke_` (left by `break`) --
+        # is kept as a View in st.ghost["loop_end"][ordinal] for the postconditions (witnesses of "there is a k").
+        self.counter = counter
         self.invariant = invariant
         self.decreases = decreases
         self.modifies = tuple(modifies)
@@ -656,16 +661,29 @@ class Interp:
                     if spec and spec.unroll:
                         raise PathEnd()  # bounded unrolling: cut (stated bound)
                     raise Unsupported(f"while loop without invariant exceeds {limit} iterations")
-        name = f"{fr.fn.ref.qualname}/loop{self.task.loop_ordinal(fr.fn.ref, s)}"
-        view0 = self.loop_view(fr, None)
+        ordinal = self.task.loop_ordinal(fr.fn.ref, s)
+        name = f"{fr.fn.ref.qualname}/loop{ordinal}"
+        counting = getattr(spec, "counter", False)
+        entry = self._entry_snapshot(fr)  # `at_entry` of the invariant's view: the locals when the loop was reached
+        view0 = self.loop_view(fr, 0 if counting else None, None, entry)
         self.check_inv(st, spec, view0, f"{name}/inv-init")
-        entry = self._entry_snapshot(fr)  # as for `for` loops: the invariant may refer to `at_entry` / `trace_mark_`
         self.havoc_loop(st, s, spec, fr)
-        view = self.loop_view(fr, None, None, entry)
+        k = None
+        if counting:
+            k = st.fresh_int("iter")  # ghost: the number of completed iterations, arbitrary
+            st.assume(V._cmp(">=", k, 0))
+        view = self.loop_view(fr, k, None, entry)
         self.assume_inv(st, spec, view)
         watched = self._watch_lists(s, spec, fr)
+
+        def left(broke):
+            if counting:
+                end = dict(self._entry_snapshot(fr)._d)
+                end.update(i_=k, broke_=broke)
+                st.ghost.setdefault("loop_end", {})[ordinal] = View(end)
+
         if self.truth(st, self.eval(st, s.test, fr)):
-            d0 = spec.decreases(self.loop_view(fr, None, None, entry)) if spec.decreases else None
+            d0 = spec.decreases(self.loop_view(fr, k, None, entry)) if spec.decreases else None
             if d0 is not None:
                 st.oblige(f"{name}/decreases-bounded", V._cmp(">=", d0, 0), "termination")
             mark = len(st.trace)
@@ -673,15 +691,17 @@ class Interp:
                 self.exec_block(st, s.body, fr)
             except _Break:
                 self._check_watched(watched, name)
+                left(True)
                 return
             except _Continue:
                 pass
             self._check_watched(watched, name)
-            v2 = self.loop_view(fr, None, None, entry, mark)
+            v2 = self.loop_view(fr, k + 1 if counting else None, None, entry, mark)
             self.check_inv(st, spec, v2, f"{name}/inv-preserve")
             if d0 is not None:
                 st.oblige(f"{name}/decreases", V._cmp("<", spec.decreases(v2), d0), "termination")
             raise PathEnd()
+        left(False)
         self.exec_block(st, s.orelse, fr)
 
     def loop_view(self, fr, i, iter_seq=None, entry=None, mark=None):
@@ -1585,6 +1605,8 @@ class Interp:
             raise Unsupported(f"attribute {name} of {type(obj).__name__}")
         if isinstance(obj, tuple) and name in ("index", "count"):
             return Method(obj, name)
+        if isinstance(obj, tuple) and getattr(obj, "nt_cls", None) is not None and name in obj.nt_cls._fields:
+            return obj[obj.nt_cls._fields.index(name)]  # a NamedTuple component by name (builtins_model.NTuple)
         if obj is None:
             raise PyRaise(SExc(AttributeError, (f"'NoneType' object has no attribute '{name}'",)))
         # concrete python object: module, class, enum, str ...
